@@ -12,12 +12,12 @@ CHECKS = {
    "DESIGN.md §2 C06"),
  "C07": ("model_checking", "E2-bfs",
    "exhaustive enumeration of all call sequences up to depth 3 (thorough 4) over the Reader/ReaderRef API on real readers, differential oracle against first-call results",
-   "For one feature-rich workbook per format (3 sheets incl. chart/hidden sheet, shared strings, 1-D and 2-D shared formulas, dates, merged regions, a table, a VBA project, a defined name, a gap row) every sequence of <=3 (thorough 4) calls over 13 Reader calls, 3 header-row settings and the format's own calls (range_ref, merge cells, merged regions, tables) is replayed on a fresh reader (32 k / 665 k sequences): every result must equal the result of the same call made first on a fresh reader under the header-row option then in force. In addition range == range_ref == range_at(n) == worksheets()[name] for every sheet, unknown names are not-found errors, and the auto-detected Sheets reader returns the same results as the format's own reader for every common call under every option.",
+   "For one feature-rich workbook per format (3 sheets incl. chart/hidden sheet, shared strings, 1-D and 2-D shared formulas, dates, merged regions, a table, a VBA project, a defined name, a gap row) every sequence of <=3 (thorough 4) calls over 13 Reader calls, 3 header-row settings and the format's own calls (range_ref, merge cells, merged regions, tables) is replayed on a fresh reader (32 k / 665 k sequences): every result must equal the result of the same call made first on a fresh reader under the header-row option then in force. In addition range == range_ref == range_at(n) == worksheets()[name] for every sheet, unknown names and near misses of every real name (letter case, blanks, one character more or less) are errors, two sheets whose names differ only by case are distinct on every path, and the auto-detected Sheets reader returns the same results as the format's own reader for every common call under every option.",
    "Trusted: the workbook builders; results compared through Debug renderings.",
    "DESIGN.md §2 C07"),
  "C20": ("model_checking", "E1-choice",
    "stateless choice-tree exploration of encrypted containers (OOXML-in-CFB, BIFF8 FILEPASS, ods manifests) and of unencrypted workbooks on the real readers",
-   "Encrypted OOXML packages (6 sizes around the mini-stream cutoff, 4 EncryptionInfo variants, DataSpaces storage or not) in CFB layouts (v3/v4, 5 sector orders, directory variations, stale bytes after name terminators) opened with Xlsx and Xlsb; BIFF8 workbooks with FILEPASS of 4 kinds at both legal positions with garbled record bodies; ods manifests with encryption-data on the first, a middle, the last, all or several of 3-5 entries: every one must fail with the reader's Password error. Conversely unencrypted xlsx (every C01 encoding), xlsb, xls (CFB layouts, extra streams, WRITEPROTECT) and ods workbooks whose names and strings spell the trigger words must open. Full product for ods/plain (thorough: all families), <=3 deviations otherwise.",
+   "Encrypted OOXML packages (6 sizes around the mini-stream cutoff, 4 EncryptionInfo variants, DataSpaces storage or not) in CFB layouts (v3/v4, 5 sector orders, directory variations, stale bytes after name terminators) opened with Xlsx and Xlsb; BIFF workbooks with FILEPASS of 5 kinds (BIFF8 RC4, XOR, CryptoAPI v2/v4; the 4-byte BIFF5 XOR form in a Book stream) at both legal positions with garbled record bodies; ods manifests with encryption-data on the first, a middle, the last, all or several of 3-5 entries: every one must fail with the reader's Password error. Conversely unencrypted xlsx (every C01 encoding), xlsb, xls (CFB layouts, extra streams, WRITEPROTECT) and ods workbooks whose names and strings spell the trigger words must open. Full product for ods/plain (thorough: all families), <=3 deviations otherwise.",
    "Trusted: the container writers; ciphertext is pseudo-random.",
    "DESIGN.md §2 C20"),
  "C18": ("model_checking", "E1-choice",
@@ -27,22 +27,22 @@ CHECKS = {
    "DESIGN.md §2 C18"),
  "C15": ("model_checking", "E1-choice",
    "complete enumeration of master formulas (templates x reference alphabet) x offsets through the real translator vs a reference shift; choice-tree exploration of group shapes end to end",
-   "(a) 30 formula templates (function names ending in digits, sheet-qualified / quoted / non-ASCII sheet names, strings with cell-like text and doubled quotes, exponent numbers, names with digits) with 16 references (all absolute/relative combinations at A1, Z10, AA5, ZZ100) in every slot are translated by every offset of a window through the real replace_cell_names and compared with the piecewise reference shift; (b) groups of 7 shapes (1-D and 2-D) at 3 master positions with every master formula, the master not being the top-left cell of the declared range, a second group, swapped si order, a non-member cell inside the range, prefix and implicit references are read through worksheet_formula (<=2, thorough 3 deviations): every member must carry its translated formula, other cells theirs.",
+   "(a) 33 formula templates (function names ending in digits, defined names with non-ASCII letters ending like a cell reference, sheet-qualified / quoted / non-ASCII sheet names, strings with cell-like text and doubled quotes, exponent numbers, names with digits) with 16 references (all absolute/relative combinations at A1, Z10, AA5, ZZ100) in every slot are translated by every offset of a window through the real replace_cell_names and compared with the piecewise reference shift; (b) groups of 7 shapes (1-D and 2-D) at 3 master positions with every master formula, the master not being the top-left cell of the declared range, a second group, swapped si order, a non-member cell inside the range, prefix and implicit references are read through worksheet_formula (<=2, thorough 3 deviations): every member must carry its translated formula, other cells theirs.",
    "Trusted: the piece-list reference in props/c15.rs and gen/xlsx.rs. Offsets keep references inside the sheet.",
    "DESIGN.md §2 C15"),
  "C14": ("model_checking", "E1-choice",
    "complete enumeration of formula ASTs up to depth 2 (thorough: + depth 3 layer) serialised to BIFF8/BIFF12 token streams and rendered by the real parsers, vs the AST's own A1 renderer; sub-lattice end to end at cell positions",
-   "About 160 k (thorough 4 M) ASTs per binary format over cell refs (4 absolute/relative combinations x columns A..IV/XFD x first/last row), areas, 3-D refs and areas through a non-identity XTI table, defined names, int/float/8- and 16-bit string/bool/error literals, unary, 15 binary, parentheses, fixed- and variable-arity functions and PtgAttrSum are serialised in both operand classes and rendered by the real xls and xlsb token parsers; every 41st (thorough 7th) is also written into FORMULA / BrtFmla* records in windows at A1 and at the last cell and read through worksheet_formula (placement and emptiness of other cells checked), cycling a formula-less name record before the used names and (xls) sheet substreams stored in reverse of BoundSheet8 order; xlsx and ods stored-text formulas with XML-special characters at every subset of 4 positions, explicit and implicit cell references.",
+   "About 160 k (thorough 4 M) ASTs per binary format over cell refs (4 absolute/relative combinations x columns A..IV/XFD x first/last row), areas, 3-D refs and areas through a non-identity XTI table, defined names, int/float/8- and 16-bit string/bool/error literals, unary, 15 binary, parentheses, fixed- and variable-arity functions and PtgAttrSum are serialised in both operand classes and rendered by the real xls and xlsb token parsers; every 41st (thorough 7th) is also written into FORMULA / BrtFmla* records in windows at A1 and at the last cell and read through worksheet_formula (placement and emptiness of other cells checked), cycling a formula-less name record before the used names and (xls) sheet substreams stored in reverse of BoundSheet8 order; xlsx and ods stored-text formulas with XML-special characters at every subset of 6 positions (two of them directly after another, so that implicit and explicit references mix within a row), explicit and implicit cell references.",
    "Trusted: model/formula.rs (AST renderer and Ptg serialiser written from MS-XLS 2.5.198 / MS-XLSB 2.5.97; relative flags: bit 14 column, bit 15 row). Strings without double quotes, sheet names that need no quoting.",
    "DESIGN.md §2 C14"),
  "C17": ("model_checking", "E1-choice",
    "stateless choice-tree exploration of merged-region sets and table geometries through every API path of the real xlsx / xls readers",
-   "Workbooks with 1-2 sheets, 0-3 merged regions per sheet drawn in every order from five regions (A1 to the last rows/columns of the format; xls also split over two MERGECELLS records), and for xlsx 0-2 tables at 5 placements relative to the used range x header 0/1 x totals 0/1 x explicit default counts x either sheet x prefix, all choice vectors with <=4 (thorough 5) deviations; worksheet_merge_cells(_at), load_merged_regions + merged_regions(_by_sheet), load_tables, table_names(_in_sheet), table_by_name(_ref) are compared with the declared geometry and the model values.",
+   "Workbooks with 1-2 sheets, 0-3 merged regions per sheet drawn in every order from five regions (A1 to the last rows/columns of the format; xls also split over two MERGECELLS records), and for xlsx 0-2 tables at 5 placements relative to the used range x header 0/1 x totals 0/1 x totalsRowShown absent/1/0 x explicit default counts x either sheet x prefix, all choice vectors with <=4 (thorough 5) deviations; worksheet_merge_cells(_at), load_merged_regions + merged_regions(_by_sheet), load_tables, table_names(_in_sheet), table_by_name(_ref) are compared with the declared geometry and the model values.",
    "Trusted: gen/xlsx.rs, gen/biff8.rs; tables keep at least one data row.",
    "DESIGN.md §2 C17"),
  "C08": ("model_checking", "E2-bfs",
    "exhaustive enumeration of option histories (depth <= 2 over 12 options, depth 3 over 4/12) x all row patterns x four formats on real readers vs the statement",
-   "For every subset of rows 0..4 being non-empty (32 patterns), two column offsets and all four formats, every history of <=2 header-row settings over FirstNonEmptyRow and Row(n), n in {0..6, 65535, 65536, 1048576, u32::MAX}, and every history of 3 over a 4-option subset (thorough: all 12), is run on one reader with a read after every step; each read must not panic, start at row n iff data exists at or below n (else be empty), agree cell-by-cell with the default read at every position >= n and contain nothing else.",
+   "For every subset of rows 0..4 being non-empty (32 patterns), two column offsets and all four formats (xlsx and xlsb also with an out-of-date advisory dimension record), every history of <=2 header-row settings over FirstNonEmptyRow and Row(n), n in {0..6, 65535, 65536, 1048576, u32::MAX}, and every history of 3 over a 4-option subset (thorough: all 12), is run on one reader with a read after every step; each read must not panic, start at row n iff data exists at or below n (else be empty), agree cell-by-cell with the default read at every position >= n and contain nothing else.",
    "Trusted: the four writers and the statement-level oracle in props/c08.rs; columns of the returned range are not constrained.",
    "DESIGN.md §2 C08"),
  "C16": ("model_checking", "E1-choice",
@@ -52,7 +52,7 @@ CHECKS = {
    "DESIGN.md §2 C16"),
  "C10": ("model_checking", "E1-choice",
    "complete enumeration of all number-format token sequences up to length 3/4 through the real classifier vs a token-level reference + full product of style tables x number encodings x date systems in three formats",
-   "(a) all 143 k (thorough 7.5 M) sequences over a 52-token alphabet of the number-format grammar are classified by the real detect_custom_number_format and compared with a token-level reference (first section only; literals, escapes and bracket prefixes do not count); every built-in id 0-22, 37-49 through both lookup functions. (b) the full product (about 16 k files) of 14 style kinds, 5 serials, both date systems, XF position, out-of-range style index and every number encoding of xlsx / xls / xlsb is read end to end: variant, flavour, serial and is_1904 must match.",
+   "(a) all 143 k (thorough 7.5 M) sequences over a 52-token alphabet of the number-format grammar are classified by the real detect_custom_number_format and compared with a token-level reference (first section only; literals, escapes and bracket prefixes do not count); every built-in id 0-22, 37-49 through both lookup functions. (b) the full product (about 16 k files) of 14 style kinds, 5 serials, both date systems, XF position, out-of-range style index, General xf entries without numFmtId (xlsx), the fPhShow bit (xlsb) and every number encoding of xlsx / xls / xlsb is read end to end: variant, flavour, serial and is_1904 must match.",
    "Trusted: the token classes of props/c10.rs; token sequences mixing General/@ with date tokens, digit placeholders or separators, and elapsed tokens after a date token, are outside the grammar and skipped; locale-dependent built-in ids not asserted.",
    "DESIGN.md §2 C10"),
  "C19": ("model_checking", "E1-choice",
@@ -62,12 +62,12 @@ CHECKS = {
    "DESIGN.md §2 C19"),
  "C02": ("model_checking", "E1-choice",
    "complete enumeration of all 2^32 RK words through the real decoder + stateless choice-tree exploration of BIFF8 sheets x equivalent record encodings",
-   "All 4 294 967 296 RK words are decoded by the real rk decoder and compared with the MS-XLS 2.5.217 definition (value, sign extension, /100, Int/Float typing); end to end, sheets with <=2 (thorough 3) cells of ~75 kinds at three anchors (incl. row 65535 / column 255) are written with every exact encoding of each number (NUMBER, RK int/float, x100 forms, MULRK grouping), LABELSST/LABEL/BOOLERR/FORMULA(+STRING) and ignorable records, in v3 and v4 containers, and read back through worksheet_range.",
+   "All 4 294 967 296 RK words are decoded by the real rk decoder and compared with the MS-XLS 2.5.217 definition (value, sign extension, /100, Int/Float typing); shared-string tables of 255..66000 strings with LABELSST indices at the 8- and 16-bit boundaries; end to end, sheets with <=2 (thorough 3) cells of ~75 kinds at three anchors (incl. row 65535 / column 255) are written with every exact encoding of each number (NUMBER, RK int/float, x100 forms, MULRK grouping), LABELSST/LABEL/BOOLERR/FORMULA(+STRING) and ignorable records, in v3 and v4 containers, and read back through worksheet_range.",
    "Trusted: gen/biff8.rs + gen/cfb.rs writers (MS-XLS / MS-CFB) and the value model.",
    "DESIGN.md §2 C02"),
  "C03": ("model_checking", "E1-choice",
    "stateless choice-tree exploration of BIFF12 sheets x record kinds x ignorable-record interleavings on the real reader",
-   "Sheets with <=2 cells of ~70 kinds (every exact RK encoding, Real, Isst, St, Bool, Error, all four BrtFmla* kinds) at three anchors incl. the last row/column, with an ignorable record of 7 kinds and 6 payload lengths (1-, 2- and 3-byte length prefixes, 1- and 2-byte ids) at every gap, blank cells and optional pre-sheet-data blocks; all choice vectors with <=2 (thorough 3) deviations; worksheet_range and worksheet_range_ref compared with the model and with each other.",
+   "Sheets with <=2 cells of ~70 kinds (every exact RK encoding, Real, Isst, St, Bool, Error, all four BrtFmla* kinds, zero-length constant and cached strings), the fPhShow bit of the Cell structure set or not, at three anchors incl. the last row/column, with an ignorable record of 7 kinds and 6 payload lengths (1-, 2- and 3-byte length prefixes, 1- and 2-byte ids) at every gap, blank cells and optional pre-sheet-data blocks; all choice vectors with <=2 (thorough 3) deviations; worksheet_range and worksheet_range_ref compared with the model and with each other.",
    "Trusted: gen/xlsb.rs (MS-XLSB) and the value model.",
    "DESIGN.md §2 C03"),
  "C12": ("model_checking", "E1-choice",
@@ -82,7 +82,7 @@ CHECKS = {
    "DESIGN.md §2 C13"),
  "C01": ("model_checking", "E1-choice",
    "stateless choice-tree exploration of logical xlsx sheets x legal physical encodings on the real reader vs a map model",
-   "Every sheet with <=2 (thorough 3) cells of 22 kinds in a 3x4 window at four anchors (A1 .. XFD1048576 corner) is written under every choice vector with <=2 (thorough 3) deviations over cell kinds and 11 encoding variation points (incl. relationship ids in shuffled order), plus the full encoding product on representative sheets; each file is read through worksheet_range and worksheet_range_ref and compared cell-by-cell and bound-by-bound with the model.",
+   "Every sheet with <=2 (thorough 3) cells of 25 kinds (incl. numbers under General / date / 0.00 styles) in a 3x4 window at four anchors (A1 .. XFD1048576 corner) is written under every choice vector with <=2 (thorough 3) deviations over cell kinds and 12 variation points (incl. relationship ids in shuffled order, a stale dimension, General xf entries without numFmtId), plus the full encoding product on representative sheets; each file is read through worksheet_range and worksheet_range_ref and compared cell-by-cell and bound-by-bound with the model.",
    "Trusted: the independent writer gen/xlsx.rs (ECMA-376) and the map model; inputs outside the alphabet (relationship prefixes other than r:, extLst children, _xHHHH_ escapes) are not generated.",
    "DESIGN.md §2 C01"),
  "C04": ("model_checking", "E1-choice",
@@ -97,7 +97,7 @@ CHECKS = {
    "DESIGN.md §2 C05"),
  "C09": ("model_checking", "E1-choice",
    "stateless choice-tree exploration (full product / deviation-bounded) of ranges x header configs x target shapes on the real RangeDeserializer vs a reference row mapper",
-   "Every small range (origin, 0-3 rows, 1-3 columns, 10 cell values incl. two error kinds), every header mode (none / all / every ordered custom selection incl. padded and unknown names / struct field names) and 12 target record shapes are enumerated; every item, every size_hint before each next() and every CellError kind and absolute position is compared with a reference mapper. Full product on small jobs, all choice vectors with <=2 (thorough 3) deviations from the default on the rest.",
+   "Every small range (origin, 0-3 rows, 1-3 columns, 11 cell values incl. two error kinds and the zero-length string), every header mode (none / all / every ordered custom selection incl. padded and unknown names / struct field names) and 12 target record shapes are enumerated; every item, every size_hint before each next() and every CellError kind and absolute position is compared with a reference mapper. Full product on small jobs, all choice vectors with <=2 (thorough 3) deviations from the default on the rest.",
    "Trusted: the reference conversions in props/c09.rs; serde's derive. Custom error messages are not compared.",
    "DESIGN.md §2 C09"),
  "C11": ("model_checking", "sweep",
